@@ -124,40 +124,58 @@ def policy_rules(ctx, prog):
             ctx.ob("C15.D2", "reproc_start [failure]", "a failed start stores no policy", all(v is None for v in vals.values()),
                    {k: show(v) for k, v in vals.items()}, nontrivial=True)
     ctx.floor("C15.D2", 2)
-    # parse_options stores parse_stop_actions(options->stop) into options->stop
-    P = prog.fn("parse_options")
-    hits = [n for n in P.walk() if n["k"] == "BinaryOperator" and n["op"] == "=" and (field_path(n["c"][0]) or ("", []))[1] == ["stop"]
-            and strip(n["c"][1])["k"] == "CallExpr" and strip(n["c"][1]).get("callee") == "parse_stop_actions"]
-    ctx.ob("C15.D2p", "parse_options", "the validator replaces the policy by its resolved form (default applied)", len(hits) == 1, None)
 
 
 def default_rules(ctx, prog):
-    F = prog.fn("parse_stop_actions")
-    I = new_interp(prog)
-    p = ("v", F.gdid(F.params[0]["did"]))
+    """D2p + D3: what the validator leaves in options->stop for every noop/wait/terminate/kill triple (real code,
+    independent of how the helper that resolves the default is written or called)"""
+    F = prog.fn("parse_options")
+
+    def o_pr(I, fn, n, args, st):
+        return [(st, fs(0))]
+    I = new_interp(prog, overrides={"parse_redirect": o_pr})
+    I.widen = False
+    p = {x["name"]: ("v", F.gdid(x["did"])) for x in F.params}
+    O = ("g", "options_under_test")
+    AV = ("g", "argv_under_test")
     acts = {"noop": prog.const("REPROC_STOP_NOOP"), "wait": prog.const("REPROC_STOP_WAIT"),
             "terminate": prog.const("REPROC_STOP_TERMINATE"), "kill": prog.const("REPROC_STOP_KILL")}
     DL, INF = prog.const("REPROC_DEADLINE"), prog.const("REPROC_INFINITE")
-    n = 0
+    states = []
     for combo in itertools.product(acts, repeat=3):
         st = State()
+        st.mon["nofail"] = True
+        st.mem[p["options"]] = fs(("addr", O))
+        st.mem[("f", ("f", O, "input"), "data")] = fs("NULL")
+        st.mem[("f", ("f", O, "input"), "size")] = fs(0)
+        st.mem[("f", ("f", ("f", O, "redirect"), "in"), "type")] = fs(prog.const("REPROC_REDIRECT_PIPE"))
+        st.mem[("f", O, "fork")] = fs(0)
+        st.mem[("f", O, "deadline")] = fs(0)
+        st.mem[p["argv"]] = fs(("addr", ("i", AV, 0)))
+        st.mem[("i", AV, 0)] = fs("PTR")
         for i, (fld, a) in enumerate(zip(("first", "second", "third"), combo)):
-            st.mem[("f", ("f", p, fld), "action")] = fs(acts[a])
-            st.mem[("f", ("f", p, fld), "timeout")] = fs(("sym", "t%d" % i))
-        res = I.run(F, [st])
-        outs = set()
-        for s, rv in res.exits:
-            ret = ("retagg", F.name)
-            outs.add(tuple((show(s.mem.get(("f", ("f", ret, fld), "action"))), show(s.mem.get(("f", ("f", ret, fld), "timeout"))))
-                           for fld in ("first", "second", "third")))
+            st.mem[("f", ("f", ("f", O, "stop"), fld), "action")] = fs(acts[a])
+            st.mem[("f", ("f", ("f", O, "stop"), fld), "timeout")] = fs(("sym", "t%d" % i))
+        st.mon["case"] = combo
+        states.append(st)
+    res = I.run(F, states)
+    ctx.stats("E-ABS", I.stats)
+    by = {}
+    for s, rv in res.exits:
+        if rv == fs(0):
+            by.setdefault(s.mon["case"], set()).add(tuple(
+                (show(s.mem.get(("f", ("f", ("f", O, "stop"), fld), "action"))), show(s.mem.get(("f", ("f", ("f", O, "stop"), fld), "timeout"))))
+                for fld in ("first", "second", "third")))
+    for combo in itertools.product(acts, repeat=3):
+        outs = by.get(combo, set())
         if all(a == "noop" for a in combo):
             want = {((show(fs(acts["wait"])), show(fs(DL))), (show(fs(acts["terminate"])), show(fs(INF))),
                      (show(fs(acts["noop"])), show(fs(("sym", "t2")))))}
         else:
             want = {tuple((show(fs(acts[a])), show(fs(("sym", "t%d" % i)))) for i, a in enumerate(combo))}
-        n += 1
-        ctx.ob("C15.D3", "parse_stop_actions {%s}" % ", ".join(combo), "an all-noop policy becomes wait(until deadline), terminate, "
-               "wait(forever); any other policy is used unchanged", outs == want, {"result": sorted(outs)[:2]}, nontrivial=True)
+        ctx.ob("C15.D3", "parse_options: stop = {%s}" % ", ".join(combo), "the policy the validator leaves in the options (and start then "
+               "stores in the handle) is: wait(until deadline), terminate, wait(forever) for an all-noop policy; any other policy unchanged",
+               outs == want, {"result": sorted(outs)[:2]}, nontrivial=True)
     ctx.floor("C15.D3", 64)
 
 
